@@ -277,6 +277,9 @@ impl Ctx {
                         cases: per as u32,
                         failure_persistence: None,
                         max_shrink_iters: 400,
+                        // shrinking re-runs the property: for proving checks one run takes seconds.
+                        // The verdict does not depend on how far the failure was shrunk.
+                        max_shrink_time: if self.quick() { 45_000 } else { 240_000 },
                         max_global_rejects: 1 << 30,
                         rng_seed: RngSeed::Fixed(h1),
                         ..Config::default()
